@@ -261,6 +261,23 @@ def execute(case):
         viol("C13.timeout0-no-limit", "stream-differs",
              "text=%r: timeout=0 gave %d candidates, no-deadline run %d"
              % (case["text"], len(S0), len(S_inf)))
+    # ... and through the single-result entry point as well: under the tick clock any hidden
+    # default budget would expire after a few reads
+    res0, _, exc0c, _ = _run(lib, case, 0, "call", deltas)
+    n_eval += 1
+    if exc0c:
+        viol("C13.raises", "timeout0-call:" + exc0c.split(":")[0],
+             "text=%r: ctparse(timeout=0) raised %s" % (case["text"], exc0c))
+    else:
+        b0 = None
+        for c in S_inf:
+            if c is not None and (b0 is None or float(c[4]) >= float(b0[4])):
+                b0 = c
+        if (b0 is None and not (res0 is not None and res0[0] is None)) or \
+                (b0 is not None and (res0 is None or res0[:5] != b0[:5])):
+            viol("C13.timeout0-no-limit", "single-result-differs",
+                 "text=%r: ctparse(timeout=0) returned %r, the best of the unlimited stream is %r"
+                 % (case["text"], res0, b0))
     obs.append(["inf", R, len(S_inf), core.short(S_inf)])
     n_seq = sum(1 for e in log_inf if e[0] == "analysis")
 
